@@ -60,7 +60,9 @@ class C12(Spec):
             "ReadBytes, ReadString, Read(n)) on the real stream, optionally repositioned; observed per call: ok value / error "
             "identity / panic, Position(), Len(), whether bytes allocated during the call exceed 2*remaining+64. Generated: "
             "every byte string of length <= 2 x every call at position 0 (thorough: every position; plus all 2-byte prefixes x "
-            "12 third bytes), continuation-bit patterns of 1..6 bytes over boundary digits, structure-aware random inputs (valid, "
+            "12 third bytes), continuation-bit patterns of 1..6 bytes over boundary digits, valid "
+            "records of 65535/65536/65537/70000/2^20 bytes (thorough: more sizes) that are really present, at a non-zero offset and "
+            "followed by further values, structure-aware random inputs (valid, "
             "truncated, over-long 7-bit groups, length prefixes above the remaining data up to 2^31-1, negative sizes, "
             "non-canonical prefixes), random call sequences on short biased inputs. distinct by script line; non-trivial = at "
             "least one call fails or reads a length-prefixed value")
